@@ -3,6 +3,10 @@ verus! {
 pub assume_specification<T: std::clone::Clone> [<T as std::borrow::ToOwned>::to_owned] (x: &T) -> (r: T)
     ensures r == *x;
 pub assume_specification [std::thread::sleep] (d: std::time::Duration);
+// VecDeque::retain (vstd knows new / push_back / pop_front / len ...): what is kept was there before
+pub assume_specification<T, A: core::alloc::Allocator, F: FnMut(&T) -> bool>[ std::collections::VecDeque::<T, A>::retain ](v: &mut std::collections::VecDeque<T, A>, f: F)
+    requires forall|x: &T| f.requires((x,)),
+    ensures final(v)@.len() <= old(v)@.len(), forall|i: int| 0 <= i < final(v)@.len() ==> old(v)@.contains(#[trigger] final(v)@[i]);
 }
 pub mod stdax {
     use vstd::prelude::*;
@@ -86,4 +90,34 @@ pub assume_specification<T> [std::option::Option::<T>::or] (a: std::option::Opti
 pub assume_specification<T, E, F: FnOnce(E) -> T> [std::result::Result::<T, E>::unwrap_or_else] (o: std::result::Result<T, E>, f: F) -> (r: T)
     requires o matches Err(e) ==> f.requires((e,)),
     ensures o matches Ok(x) ==> r == x, o matches Err(e) ==> f.ensures((e,), r);
+pub assume_specification<T, E> [std::result::Result::<T, E>::unwrap_or] (o: std::result::Result<T, E>, d: T) -> (r: T)
+    ensures r == (match o { Ok(x) => x, Err(_) => d });
+pub assume_specification<T, E, U, F: FnOnce(T) -> std::result::Result<U, E>> [std::result::Result::<T, E>::and_then] (o: std::result::Result<T, E>, f: F) -> (r: std::result::Result<U, E>)
+    requires o matches Ok(x) ==> f.requires((x,)),
+    ensures o matches Ok(x) ==> f.ensures((x,), r), o matches Err(e) ==> r == std::result::Result::<U, E>::Err(e);
+pub assume_specification<T, E, G, F: FnOnce(E) -> std::result::Result<T, G>> [std::result::Result::<T, E>::or_else] (o: std::result::Result<T, E>, f: F) -> (r: std::result::Result<T, G>)
+    requires o matches Err(e) ==> f.requires((e,)),
+    ensures o matches Err(e) ==> f.ensures((e,), r), o matches Ok(x) ==> r == std::result::Result::<T, G>::Ok(x);
+pub assume_specification<T, E, U, F: FnOnce(T) -> U> [std::result::Result::<T, E>::map_or] (o: std::result::Result<T, E>, d: U, f: F) -> (r: U)
+    requires o matches Ok(x) ==> f.requires((x,)),
+    ensures o matches Ok(x) ==> f.ensures((x,), r), o is Err ==> r == d;
+pub assume_specification<T, E, F: FnOnce(T) -> bool> [std::result::Result::<T, E>::is_ok_and] (o: std::result::Result<T, E>, f: F) -> (r: bool)
+    requires o matches Ok(x) ==> f.requires((x,)),
+    ensures o matches Ok(x) ==> f.ensures((x,), r), o is Err ==> !r;
+pub assume_specification<T, U, F: FnOnce(T) -> U> [std::option::Option::<T>::map_or] (o: std::option::Option<T>, d: U, f: F) -> (r: U)
+    requires o matches Some(x) ==> f.requires((x,)),
+    ensures o matches Some(x) ==> f.ensures((x,), r), o is None ==> r == d;
+pub assume_specification<T, F: FnOnce(T) -> bool> [std::option::Option::<T>::is_some_and] (o: std::option::Option<T>, f: F) -> (r: bool)
+    requires o matches Some(x) ==> f.requires((x,)),
+    ensures o matches Some(x) ==> f.ensures((x,), r), o is None ==> !r;
+pub assume_specification<T, F: FnOnce(T) -> bool> [std::option::Option::<T>::is_none_or] (o: std::option::Option<T>, f: F) -> (r: bool)
+    requires o matches Some(x) ==> f.requires((x,)),
+    ensures o matches Some(x) ==> f.ensures((x,), r), o is None ==> r;
+pub assume_specification<T, F: FnOnce(&T) -> bool> [std::option::Option::<T>::filter] (o: std::option::Option<T>, f: F) -> (r: std::option::Option<T>)
+    requires o matches Some(x) ==> f.requires((&x,)),
+    ensures o matches Some(x) ==> (f.ensures((&x,), true) ==> r == o) && (f.ensures((&x,), false) ==> r is None), o is None ==> r is None, r is Some ==> r == o;
+pub assume_specification<T, U> [std::option::Option::<T>::and] (a: std::option::Option<T>, b: std::option::Option<U>) -> (r: std::option::Option<U>)
+    ensures r == (if a is Some { b } else { std::option::Option::<U>::None });
+pub assume_specification<T, U> [std::option::Option::<T>::zip] (a: std::option::Option<T>, b: std::option::Option<U>) -> (r: std::option::Option<(T, U)>)
+    ensures r == (match (a, b) { (Some(x), Some(y)) => Some((x, y)), _ => std::option::Option::<(T, U)>::None });
 }
